@@ -664,6 +664,10 @@ func (m *monitor) runAll(phase, mode string, cases []*Case, judge func(*Case, *c
 	size := c.Pick(400, batchSize)
 	if mode == "start" {
 		size = startBatchSize
+		// the start phase keeps its order: the cases that have to be there come
+		// first, each one before anything else in its process has touched the
+		// files and caches it is about
+		copy(sh, cases)
 	}
 	var wg sync.WaitGroup
 	bi := 0
